@@ -285,10 +285,20 @@ Proof.
   destruct new_type; try reflexivity. destruct values as [[|f r]|]; reflexivity.
 Qed.
 
+(* the D6 repair (apply_default_as_fill_with) only writes a fill_with field as well *)
+Lemma erase_default_as_fill b a : erase_fill (default_as_fill b a) = erase_fill a.
+Proof.
+  destruct a; cbn [default_as_fill]; try reflexivity.
+  destruct nullable; [reflexivity|]. destruct fill_with; [reflexivity|].
+  destruct (lookup_col b table column) as [c|]; [|reflexivity]. destruct (c_default c); reflexivity.
+Qed.
+Lemma apply_action_default_as_fill s b a : apply_action s (default_as_fill b a) = apply_action s a.
+Proof. now rewrite <- apply_action_erase, erase_default_as_fill, apply_action_erase. Qed.
+
 Theorem filled_erase p B : map erase_fill (filled_actions p B) = map erase_fill (p_actions p).
 Proof.
   unfold filled_actions, revision_fill. destruct (refuses (p_actions p)); [reflexivity|].
-  cbv zeta. rewrite erase_enum_fills.
+  cbv zeta. rewrite map_map, (map_ext _ _ (erase_default_as_fill B)), erase_enum_fills.
   destruct (collect_fills (p_actions p) B); [reflexivity|].
   rewrite map_map. apply map_ext. intro a. apply erase_apply_fill.
 Qed.
